@@ -118,6 +118,9 @@ type errSpec struct {
 	Text      string `json:"text"`
 	TextKind  string `json:"text_kind"`
 	Wrapped   bool   `json:"wrapped,omitempty"`
+	// NoEnh: the target reported a basic code only (a next hop without
+	// enhanced status codes); Enh is 0.0.0.
+	NoEnh bool `json:"no_enhanced_code,omitempty"`
 }
 
 type codePair struct {
@@ -164,6 +167,10 @@ func genErr(p *prng.R, class string, n int) *errSpec {
 		}
 	}
 	e.Wrapped = p.Chance(1, 3)
+	if e.Annotated && p.Chance(1, 6) {
+		e.NoEnh = true
+		e.Enh = [3]int{}
+	}
 	return e
 }
 
@@ -501,8 +508,8 @@ func waitIdle(dir string, limit time.Duration) (bool, []string) {
 }
 
 const (
-	quickCases    = 400
-	thoroughCases = 20000
+	quickCases    = 800
+	thoroughCases = 60000
 )
 
 func TestVerif(t *testing.T) {
@@ -1095,7 +1102,15 @@ func judgeReport(r *rep.Reporter, sc *scenario, m *msgPlan, b *mx.DeliverySummar
 		okAny := false
 		var want []string
 		for _, e := range cands {
-			if e.Annotated {
+			if e.Annotated && e.NoEnh {
+				// basic code only: the report must still exist and show that code
+				// with some enhanced code of its class
+				want = append(want, fmt.Sprintf("%d %d.x.x", e.Code, e.Code/100))
+				if g.DiagCode == e.Code && g.DiagEnh[0] == e.Code/100 && g.Status == g.DiagEnh {
+					okAny = true
+					r.Count("status_codes_checked_basic_code_only", 1)
+				}
+			} else if e.Annotated {
 				want = append(want, fmt.Sprintf("%d %d.%d.%d", e.Code, e.Enh[0], e.Enh[1], e.Enh[2]))
 				if g.DiagCode == e.Code && g.DiagEnh == e.Enh && g.Status == e.Enh {
 					okAny = true
@@ -1112,12 +1127,12 @@ func judgeReport(r *rep.Reporter, sc *scenario, m *msgPlan, b *mx.DeliverySummar
 					okAny = true
 				}
 			}
-			r.Distinct("last_error_kinds", fmt.Sprintf("%s/annotated=%v/%s", e.Class, e.Annotated, e.TextKind))
+			r.Distinct("last_error_kinds", fmt.Sprintf("%s/annotated=%v/basic-code-only=%v/%s", e.Class, e.Annotated, e.NoEnh, e.TextKind))
 		}
 		if !okAny {
 			sig := "status/not-the-last-error"
 			for _, e := range cands {
-				if e.Annotated && g.DiagCode == e.Code && g.DiagEnh != e.Enh {
+				if e.Annotated && !e.NoEnh && g.DiagCode == e.Code && g.DiagEnh != e.Enh {
 					sig = "status/enhanced-code-lost"
 				}
 			}
